@@ -32,7 +32,9 @@ CLAIMS = {
              "formatters run before the conversion; who-may-call shows a single funnel into assign(); lookup structure "
              "shared with C05. Of the tokeniser two clauses are decided: the one-step 'rest of the word is the value' request "
              "is cleared on every exit of operator++, and '--key=value' is split at the FIRST '=' (family of the search "
-             "in determineNextArg). The full equivalence of all command-line spellings (tokenisation by the "
+             "in determineNextArg), the key handed on is exactly the text in front of that '=' and the value starts at the "
+             "character right behind it (Engine C over operator++ from every case of the cursor invariant, for every "
+             "word). The full equivalence of all command-line spellings (tokenisation by the "
              "ArgListIterator state machine) is a relation over an exponential input space and is NOT decided.",
         note="trusts clang AST/CFG, boost::lexical_cast; spelling equivalence not covered",
         technique="static analysis: who-may-write effect facts, def-use of stores, who-may-call"),
@@ -182,7 +184,9 @@ CLAIMS = {
              "be resolved and compared with the reference bit vector for every operand, size and shift distance. "
              "Iteration order: forward()/reverse() of the iterator base are proved to move to the NEXT set position "
              "(each step tests exactly the neighbouring position, continues only over a clear bit inside the set, stops "
-             "only at a set bit or the end marker) and operator++/-- of both iterator kinds step through them.",
+             "only at a set bit or the end marker) and operator++/-- of both iterator kinds step through them; every "
+             "begin()/cbegin()/rbegin()/crbegin() overload is executed symbolically against that contract: the candidates "
+             "examined start at position 0 resp. size() - 1 on every path.",
         note="trusted base: clang front end, extractor, cv/lin.py + cv/bounds.py, the size model of std::vector<bool>, "
              "std::find/std::count semantics; shift distances < 2^62 assumed",
         technique="static analysis: relational (linear inequality) abstract interpretation, inductive loop/iterator invariants"),
@@ -217,7 +221,8 @@ CLAIMS = {
              "constant-folded open mode of every mFile.open() is non-truncating; every counter that written() updates "
              "and writeCheck() reads is reassigned on the open path; the byte accounting of written()/writeCheck(), "
              "evaluated abstractly, equals the operands writeMessage() streams (text + terminator); "
-             "check -> write -> account and close -> roll -> open orderings by dominance; roll loops shift "
+             "check -> write -> account and close -> roll -> open orderings by dominance; after every rollFiles() call "
+             "openCheck() sees the new file before the function returns; roll loops shift "
              "generation n-1 to n with n descending. Breaking any of these breaks the property for some history; "
              "histories, restarts and crash points themselves are not decided.",
         note="trusts clang AST/CFG and constant folding; libstdc++ openmode bit values; std::endl writes one byte",
